@@ -907,7 +907,10 @@ def get_bounds_rule(ctx, rid, gb, approx):
     g = cfg_of(gb.node)
     pp, bp = gb.params[0], gb.params[1]
     n = 0
-    for s, v in assignments_to(gb.node, bp):
+    rets = [r for r in walk_no_nested(strip_docstring(gb.node.body)) if isinstance(r, ast.Return)]
+    # a completion is written either as `bounds = <pair>` or directly as `return <pair>`
+    sites = [(s, v) for s, v in assignments_to(gb.node, bp)] + [(r, r.value) for r in rets if r.value is not None and not is_name(r.value, bp)]
+    for s, v in sites:
         if not isinstance(v, ast.AST):
             continue
         facts = []
@@ -931,9 +934,9 @@ def get_bounds_rule(ctx, rid, gb, approx):
             ok = src(v) == full
             ctx.inst(rid, gb, s, ok, "both bounds from %s" % approx if ok else
                      "bounds taken from `%s`, not from %s(%s)" % (src(v), approx, pp))
-    rets = [r for r in walk_no_nested(strip_docstring(gb.node.body)) if isinstance(r, ast.Return)]
-    ctx.inst(rid, gb, rets[0] if rets else 'return', bool(rets) and all(src(r.value) == bp for r in rets),
-             "returns the completed pair")
+    plain = [r for r in rets if r.value is not None and is_name(r.value, bp)]
+    ctx.inst(rid, gb, rets[0] if rets else 'return', bool(plain),
+             "returns the completed pair" if plain else "the given bounds are never returned as they are")
     if n < 3:
         raise AnalysisError("_get_bounds: fewer than 3 completion branches recognised")
 
